@@ -366,3 +366,51 @@ pub fn run_lean(args: &Args, rep: &mut Report) {
         }
     });
 }
+
+pub fn lean_session_kind(cfg: &SessionCfg, ops: &[Op]) -> Result<usize, String> {
+    crate::with_set!(cfg.set, lean_session, cfg, ops)
+}
+
+/// libFuzzer input -> session: 3 header bytes (command size, history size, set/prompt/constructor),
+/// then one op per byte; 0xFE / 0xFF escape an application call (write / set_prompt) taken from the next byte.
+pub fn decode_fuzz_input(data: &[u8]) -> Option<(SessionCfg, Vec<Op>)> {
+    use crate::sets::SetKind;
+    if data.len() < 3 {
+        return None;
+    }
+    let cfg = SessionCfg {
+        cmd: (data[0] % 65) as usize,
+        hist: (data[1] % 65) as usize,
+        prompt: ((data[2] >> 2) % 6) as usize,
+        set: [SetKind::Raw, SetKind::FixA, SetKind::FixG, SetKind::Raw][(data[2] & 3) as usize],
+        use_new: data[2] & 0x40 != 0,
+        chunk: if data[2] & 0x80 != 0 { 1 } else { 0 },
+        script: if data[2] & 0x20 != 0 {
+            vec![HAction { writes: vec![WCall { kind: WKind::Str, text: "o\nk".into() }, WCall { kind: WKind::Ln, text: "".into() }], set_prompt: Some(((data[2] >> 3) % 6) as usize), fail: false }]
+        } else {
+            vec![]
+        },
+    };
+    let mut ops = vec![];
+    let mut i = 3;
+    while i < data.len() {
+        match data[i] {
+            0xFE if i + 1 < data.len() => {
+                let b = data[i + 1];
+                let text = ["", "x", "a\nb", "é€\r\n", "\n\n", "𐍈 y"][(b % 6) as usize].to_string();
+                let kind = [WKind::Str, WKind::Ln, WKind::Ufmt, WKind::Fmt][((b >> 3) % 4) as usize];
+                ops.push(Op::Write(vec![WCall { kind, text }]));
+                i += 2;
+            }
+            0xFF if i + 1 < data.len() => {
+                ops.push(Op::SetPrompt((data[i + 1] % 6) as usize));
+                i += 2;
+            }
+            b => {
+                ops.push(Op::Byte(b));
+                i += 1;
+            }
+        }
+    }
+    Some((cfg, ops))
+}
